@@ -243,6 +243,7 @@ def closed_values(ip, rec, exits):
         if V in same:
             continue
         ts = set()
+        alts = []
         kind = None
         keeps = []
         skipped = False
@@ -274,6 +275,7 @@ def closed_values(ip, rec, exits):
                 kind = 'bad'
                 break
             ts.add(t)
+            alts.append(t)
             # the condition under which this way round the loop is taken (for a conditional push)
             d = []
             for f in bst.pc:
@@ -285,9 +287,18 @@ def closed_values(ip, rec, exits):
                     break
                 d.append(g)
             keeps.append(None if d is None else T.conj(d))
-        if kind in (None, 'bad') or len(ts) != 1:
+        if kind in (None, 'bad'):
             continue
-        body = ts.pop()
+        if len(ts) != 1:
+            # several ways round the loop append different values: a conditional element, if every way is told apart
+            # by a closed condition (and none skips)
+            if skipped or kind != 'push' or any(k_ is None for k_ in keeps) or len(alts) != len(keeps):
+                continue
+            body = alts[-1]
+            for c_, t_ in reversed(list(zip(keeps, alts))[:-1]):
+                body = T.mk_ite(c_, t_, body)
+        else:
+            body = ts.pop()
         if skipped:
             if kind != 'push' or entry != ('list', ()) or any(k_ is None for k_ in keeps):
                 continue
